@@ -197,6 +197,11 @@ ConvertERC20Eff(c, d, a, recv) ==
             /\ UNCHANGED <<enabled, pairs, byErc20, byDenom, meta, escrow, tsup, code, deployed>>
 
 -----------------------------------------------------------------------------
+(* The chain is restarted from a genesis file written from the module's export, in which an operator spelt the contract *)
+(* addresses as exported (EIP-55), in lower case or in upper case - all three pass genesis validation.  The registry   *)
+(* that comes out is the one that went in.                                                                             *)
+ReimportEff(f) == UNCHANGED stateVars
+
 L(act, ok, args) == /\ last' = [act |-> act, res |-> Res(ok)] @@ args
                     /\ moved' = IF act = "UpdateERC20" /\ ok THEN moved \cup {PairOf(byErc20[args.old]).denoms[1]} ELSE moved
 
@@ -212,6 +217,8 @@ Next ==
   \/ \E d \in Denoms, a \in Amts, r \in Receivers : ConvertCoinEff(d, a, r) /\ L("ConvertCoin", ConvertCoinOK(d, a, r), [d |-> d, amt |-> a, recv |-> r])
   \/ \E c \in Contracts, d \in Denoms, a \in Amts, r \in Receivers :
         ConvertERC20Eff(c, d, a, r) /\ L("ConvertERC20", ConvertERC20OK(c, d, a, r), [c |-> c, d |-> d, amt |-> a, recv |-> r])
+
+  \/ \E f \in {"same", "lower", "upper"} : ReimportEff(f) /\ L("Reimport", TRUE, [form |-> f])
 
 Spec == Init /\ [][Next]_vars
 
